@@ -27,3 +27,35 @@ pub(crate) fn peers_of(s: &SignedPeersStore, info_hash: &Id) -> usize {
 pub(crate) fn caps(s: &SignedPeersStore) -> (usize, usize) {
     (s.info_hashes.cap().get(), s.max_peers.get())
 }
+
+fn idp(b: u8) -> Id {
+    let mut x = [7u8; 20];
+    x[0] = b;
+    Id::from(x)
+}
+
+fn ann(k0: u8, t: u64) -> SignedAnnounce {
+    let mut key = [9u8; 32];
+    key[0] = k0;
+    SignedAnnounce { key, timestamp: t, signature: [3u8; 64] }
+}
+
+/// C20: the same for the signed-peers store (keyed by announcer key)
+#[kani::proof]
+#[kani::unwind(34)]
+fn c20_signed_peer_store_never_exceeds_its_capacities() {
+    let caps: usize = if kani::any() { 1 } else { 2 };
+    let mut s = SignedPeersStore::new(NonZeroUsize::new(2).unwrap(), NonZeroUsize::new(caps).unwrap());
+    let h1 = idp(1);
+    s.add_peer(h1, ann(1, 1));
+    s.add_peer(h1, ann(2, 2));
+    s.add_peer(h1, ann(3, 3));
+    assert!(peers_of(&s, &h1) == caps, "C20: at most max_peers_per_info_hash signed announcements per info hash");
+    let mut k3 = [9u8; 32];
+    k3[0] = 3;
+    assert!(view(&s, &h1, &k3) == (true, 3, 3));
+    s.add_peer(idp(2), ann(4, 4));
+    s.add_peer(idp(3), ann(5, 5));
+    assert!(info_hashes(&s) == 2 && peers_of(&s, &h1) == 0, "C20: at most max_info_hashes info hashes, least recently used evicted");
+    core::mem::forget(s);
+}
